@@ -43,6 +43,16 @@ pub struct Stmt {
     /// cancellation the session is checked once more and then abandoned
     #[serde(default)]
     pub hidden_state: bool,
+    /// OutcomeOnly: name of an implementation-only counter that a throwing callback among the
+    /// arguments increments before it throws. If it moved and the call nevertheless returned a
+    /// plain value, the callback's error was swallowed ("... or with an error that an enclosing
+    /// try ... catch receives")
+    #[serde(default)]
+    pub swallow_probe: Option<String>,
+    /// the variable holding that callback; the executor first checks that calling it really throws
+    /// (a minimiser may have simplified its body), otherwise the probe is void
+    #[serde(default)]
+    pub swallow_thrower: Option<String>,
 }
 
 #[derive(Clone, Debug, Serialize, Deserialize, PartialEq, Default)]
@@ -361,6 +371,9 @@ impl Drop for Session {
         if let Ok(mut t) = self.model.top.try_borrow_mut() {
             t.vars.clear();
         }
+        // inner scopes that are kept alive by closures they hold themselves
+        verif_hooks::release_envs();
+        crate::model::release_scopes();
     }
 }
 
@@ -646,6 +659,22 @@ fn execute_inner(
             eprintln!("TRACE {}", src);
         }
         publish_stmt(idx);
+        let read_counter = |sess: &Session, n: &str| -> Option<String> {
+            Env::try_borrow_get_var(&sess.env, n).ok().map(|o| obs::canon_obj(&o))
+        };
+        let mut probe_valid = false;
+        if let (Some(_), Some(tn)) = (&st.swallow_probe, &st.swallow_thrower) {
+            if let Ok(Some(pe)) = parse(&format!("(try ({}(); 0) catch e -> 1)", tn)) {
+                let env = sess.env.clone();
+                IN_EVAL.with(|f| f.set(true));
+                let pr = catch_unwind(AssertUnwindSafe(|| evaluate(&env, &pe)));
+                IN_EVAL.with(|f| f.set(false));
+                if let Ok(Ok(o)) = pr {
+                    probe_valid = obs::canon_obj(&o) == "i1";
+                }
+            }
+        }
+        let probe_before = if probe_valid { st.swallow_probe.as_ref().and_then(|n| read_counter(sess, n)) } else { None };
         verif_hooks::set_fuel(Some(script.cfg.fuel));
         verif_hooks::set_fault_after(cancel);
         let env = sess.env.clone();
@@ -656,8 +685,25 @@ fn execute_inner(
         let cancel_fired = cancel.is_some() && !verif_hooks::fault_armed();
         verif_hooks::set_fault_after(None);
         drop(expr);
-        let (impl_out, _impl_obj) = classify_impl(r);
+        let (impl_out, impl_obj) = classify_impl(r);
         stats.stmts_run += 1;
+        if let (Some(n), Some(before), Outcome::Value(_)) = (&st.swallow_probe, &probe_before, &impl_out) {
+            let after = read_counter(sess, n);
+            let lazy = matches!(&impl_obj, Some(Obj::Seq(noulith::Seq::Stream(_))) | Some(Obj::Func(..)));
+            if after.as_ref() != Some(before) && !lazy {
+                sess.model.probe("callback_error_swallowed");
+                nonfatal.push(Violation {
+                    kind: ViolationKind::Invariant("callback error swallowed".into()),
+                    stmt_index: idx,
+                    source: src.clone(),
+                    expected: "the error thrown by the callback reaches the caller (the call raises)".into(),
+                    observed: "the callback ran and threw, the call returned a value".into(),
+                    detail: String::new(),
+                });
+            } else if after.as_ref() != Some(before) {
+                sess.model.probe("callback_threw_result_lazy");
+            }
+        }
 
         if let Outcome::Panic(msg) = &impl_out {
             log.push(format!("{} => PANIC {}", src, msg));
@@ -681,6 +727,15 @@ fn execute_inner(
             stats.fuel_out += 1;
             log.push(format!("{} => FUEL", src));
             if st.mode == Mode::OutcomeOnly && st.write_set.is_empty() {
+                // whatever the statement printed or read before the budget ran out stands
+                {
+                    let w = sess.writer.0.lock().unwrap();
+                    sess.model.out = w.accepted.clone();
+                    sess.model.out_budget = w.budget;
+                    let r = sess.reader.0.lock().unwrap();
+                    sess.model.in_pos = r.pos;
+                    sess.model.in_err_at = r.err_at;
+                }
                 if st.must_terminate {
                     nonfatal.push(Violation {
                         kind: ViolationKind::Invariant("termination".into()),
